@@ -84,13 +84,51 @@ func (st *State) setHeap(comp string, t Term) {
 	}
 }
 
-// component name of a struct field path starting at named struct type t
-func fieldComp(t types.Type, names []string) string {
-	s := "F$" + typeKey(t)
-	for _, n := range names {
-		s += "$" + n
+// ---------- struct layout ----------
+// A struct object at address x keeps its non-struct fields in components F$<T>$<field> indexed by x.
+// A nested struct field lives at the interior address x + offset(T, field) and is addressed like any other
+// struct of its type, so that a pointer to it (&x.Comments) is just that address.  Objects are allocated
+// allocStep apart, which keeps interior addresses of different objects distinct.
+
+const allocStep = "1000"
+
+type layout struct {
+	offs []int
+	size int
+}
+
+var layouts = map[string]*layout{}
+
+func structLayout(t types.Type) *layout {
+	k := typeKey(t)
+	if l, ok := layouts[k]; ok {
+		return l
 	}
-	return s
+	st := t.Underlying().(*types.Struct)
+	l := &layout{}
+	layouts[k] = l
+	off := 1
+	for i := 0; i < st.NumFields(); i++ {
+		l.offs = append(l.offs, off)
+		if _, ok := st.Field(i).Type().Underlying().(*types.Struct); ok {
+			off += structLayout(st.Field(i).Type()).size
+		} else {
+			off++
+		}
+	}
+	l.size = off
+	return l
+}
+
+func addOff(base Term, off int) Term {
+	if off == 0 {
+		return base
+	}
+	return app("Int", "+", base, intLit(int64(off)))
+}
+
+func fieldComp(t types.Type, name string) string {
+	return "F$" + typeKey(t) + "$" + name
 }
 
 func elemComp(t types.Type) string { return "E$" + typeKey(t) }
@@ -98,39 +136,39 @@ func elemSort(P *Prog, t types.Type) string {
 	return fmt.Sprintf("(Array Int (Array Int %s))", P.sorts.sortOf(t))
 }
 
-// readStructFromHeap composes a struct value located at pointer p (type t, field prefix names).
-func (st *State) readStructFromHeap(P *Prog, p Term, root types.Type, names []string, t types.Type) Term {
+// readStructFromHeap composes the struct value of type t located at address p.
+func (st *State) readStructFromHeap(P *Prog, p Term, t types.Type) Term {
 	stt := t.Underlying().(*types.Struct)
 	si := P.sorts.structInfoOf(t)
 	if stt.NumFields() == 0 {
 		return Term{si.ctor, si.sort}
 	}
+	lay := structLayout(t)
 	var args []Term
 	for i := 0; i < stt.NumFields(); i++ {
 		f := stt.Field(i)
-		ns := append(append([]string{}, names...), f.Name())
 		if _, ok := f.Type().Underlying().(*types.Struct); ok {
-			args = append(args, st.readStructFromHeap(P, p, root, ns, f.Type()))
+			args = append(args, st.readStructFromHeap(P, addOff(p, lay.offs[i]), f.Type()))
 		} else {
 			fs := P.sorts.sortOf(f.Type())
-			h := st.getHeap(P, fieldComp(root, ns), fmt.Sprintf("(Array Int %s)", fs))
+			h := st.getHeap(P, fieldComp(t, f.Name()), fmt.Sprintf("(Array Int %s)", fs))
 			args = append(args, app(fs, "select", h, p))
 		}
 	}
 	return app(si.sort, si.ctor, args...)
 }
 
-func (st *State) writeStructToHeap(P *Prog, p Term, root types.Type, names []string, t types.Type, v Term) {
+func (st *State) writeStructToHeap(P *Prog, p Term, t types.Type, v Term) {
 	stt := t.Underlying().(*types.Struct)
 	si := P.sorts.structInfoOf(t)
+	lay := structLayout(t)
 	for i := 0; i < stt.NumFields(); i++ {
 		f := stt.Field(i)
-		ns := append(append([]string{}, names...), f.Name())
 		fv := app(si.fsorts[i], si.fields[i], v)
 		if _, ok := f.Type().Underlying().(*types.Struct); ok {
-			st.writeStructToHeap(P, p, root, ns, f.Type(), fv)
+			st.writeStructToHeap(P, addOff(p, lay.offs[i]), f.Type(), fv)
 		} else {
-			comp := fieldComp(root, ns)
+			comp := fieldComp(t, f.Name())
 			hs := fmt.Sprintf("(Array Int %s)", si.fsorts[i])
 			h := st.getHeap(P, comp, hs)
 			st.setHeap(comp, app(hs, "store", h, p, fv))
@@ -173,9 +211,11 @@ func applyPathWrite(P *Prog, root Term, steps []pathStep, nv Term) Term {
 	return app(root.Sort, "store", root, s.idx, applyPathWrite(P, cur, steps[1:], nv))
 }
 
-// splitHeapPath: for a pointer root of struct type, consume leading struct-field steps.
-func splitHeapPath(rootT types.Type, path []pathStep) (names []string, leafT types.Type, rest []pathStep) {
-	t := rootT
+// heapWalk follows leading struct-field steps from the struct of type rootT at address base.
+// It returns the innermost struct type and its address, the leaf field (or -1 if the path ends at a
+// struct), and the remaining value-level steps.
+func heapWalk(rootT types.Type, base Term, path []pathStep) (t types.Type, b Term, leaf int, rest []pathStep) {
+	t, b = rootT, base
 	i := 0
 	for i < len(path) {
 		stt, ok := t.Underlying().(*types.Struct)
@@ -183,11 +223,15 @@ func splitHeapPath(rootT types.Type, path []pathStep) (names []string, leafT typ
 			break
 		}
 		f := stt.Field(path[i].field)
-		names = append(names, f.Name())
-		t = f.Type()
-		i++
+		if _, isStruct := f.Type().Underlying().(*types.Struct); isStruct {
+			b = addOff(b, structLayout(t).offs[path[i].field])
+			t = f.Type()
+			i++
+			continue
+		}
+		return t, b, path[i].field, path[i+1:]
 	}
-	return names, t, path[i:]
+	return t, b, -1, path[i:]
 }
 
 func (st *State) read(P *Prog, l *Loc) Term {
@@ -209,15 +253,17 @@ func (st *State) read(P *Prog, l *Loc) Term {
 	case locPtr:
 		switch u := l.rootT.Underlying().(type) {
 		case *types.Struct:
-			names, leafT, rest := splitHeapPath(l.rootT, l.path)
+			t, b, leaf, rest := heapWalk(l.rootT, l.base, l.path)
 			var v Term
-			if _, isStruct := leafT.Underlying().(*types.Struct); isStruct {
-				v = st.readStructFromHeap(P, l.base, l.rootT, names, leafT)
+			if leaf < 0 {
+				v = st.readStructFromHeap(P, b, t)
 			} else {
-				fs := P.sorts.sortOf(leafT)
-				h := st.getHeap(P, fieldComp(l.rootT, names), fmt.Sprintf("(Array Int %s)", fs))
-				v = app(fs, "select", h, l.base)
+				f := t.Underlying().(*types.Struct).Field(leaf)
+				fs := P.sorts.sortOf(f.Type())
+				h := st.getHeap(P, fieldComp(t, f.Name()), fmt.Sprintf("(Array Int %s)", fs))
+				v = app(fs, "select", h, b)
 			}
+			_ = u
 			return applyPathRead(P, v, rest)
 		case *types.Array:
 			es := P.sorts.sortOf(u.Elem())
@@ -256,18 +302,20 @@ func (st *State) write(P *Prog, l *Loc, nv Term) {
 	case locPtr:
 		switch u := l.rootT.Underlying().(type) {
 		case *types.Struct:
-			names, leafT, rest := splitHeapPath(l.rootT, l.path)
-			if _, isStruct := leafT.Underlying().(*types.Struct); isStruct {
-				cur := st.readStructFromHeap(P, l.base, l.rootT, names, leafT)
-				st.writeStructToHeap(P, l.base, l.rootT, names, leafT, applyPathWrite(P, cur, rest, nv))
+			t, b, leaf, rest := heapWalk(l.rootT, l.base, l.path)
+			if leaf < 0 {
+				cur := st.readStructFromHeap(P, b, t)
+				st.writeStructToHeap(P, b, t, applyPathWrite(P, cur, rest, nv))
 				return
 			}
-			fs := P.sorts.sortOf(leafT)
-			comp := fieldComp(l.rootT, names)
+			f := t.Underlying().(*types.Struct).Field(leaf)
+			fs := P.sorts.sortOf(f.Type())
+			comp := fieldComp(t, f.Name())
 			hs := fmt.Sprintf("(Array Int %s)", fs)
 			h := st.getHeap(P, comp, hs)
-			cur := app(fs, "select", h, l.base)
-			st.setHeap(comp, app(hs, "store", h, l.base, applyPathWrite(P, cur, rest, nv)))
+			cur := app(fs, "select", h, b)
+			_ = u
+			st.setHeap(comp, app(hs, "store", h, b, applyPathWrite(P, cur, rest, nv)))
 		case *types.Array:
 			es := P.sorts.sortOf(u.Elem())
 			comp := elemComp(u.Elem())
@@ -298,11 +346,12 @@ func (l *Loc) comps(P *Prog) []string {
 	case locPtr:
 		switch u := l.rootT.Underlying().(type) {
 		case *types.Struct:
-			names, leafT, _ := splitHeapPath(l.rootT, l.path)
-			if _, isStruct := leafT.Underlying().(*types.Struct); isStruct {
-				return leafComps(l.rootT, names, leafT)
+			t, _, leaf, _ := heapWalk(l.rootT, Term{"0", "Int"}, l.path)
+			if leaf < 0 {
+				return leafComps(t)
 			}
-			return []string{fieldComp(l.rootT, names)}
+			_ = u
+			return []string{fieldComp(t, t.Underlying().(*types.Struct).Field(leaf).Name())}
 		case *types.Array:
 			return []string{elemComp(u.Elem())}
 		default:
@@ -312,19 +361,33 @@ func (l *Loc) comps(P *Prog) []string {
 	return nil
 }
 
-func leafComps(root types.Type, names []string, t types.Type) []string {
+func leafComps(t types.Type) []string {
 	stt := t.Underlying().(*types.Struct)
 	var r []string
 	for i := 0; i < stt.NumFields(); i++ {
 		f := stt.Field(i)
-		ns := append(append([]string{}, names...), f.Name())
 		if _, ok := f.Type().Underlying().(*types.Struct); ok {
-			r = append(r, leafComps(root, ns, f.Type())...)
+			r = append(r, leafComps(f.Type())...)
 		} else {
-			r = append(r, fieldComp(root, ns))
+			r = append(r, fieldComp(t, f.Name()))
 		}
 	}
 	return r
+}
+
+// addrOf: the address denoted by a location that ends at a struct (interior pointer)
+func (l *Loc) addrOf() (Term, bool) {
+	if l.kind != locPtr {
+		return Term{}, false
+	}
+	if _, ok := l.rootT.Underlying().(*types.Struct); !ok {
+		return Term{}, false
+	}
+	_, b, leaf, rest := heapWalk(l.rootT, l.base, l.path)
+	if leaf >= 0 || len(rest) > 0 {
+		return Term{}, false
+	}
+	return b, true
 }
 
 // map components
